@@ -6,7 +6,8 @@
 // so `allocate_slice_*` never panics with "internal error: not enough memory allocated".
 // The functional contracts of the same functions are proved in int_mul_dispatch / int_mul_simple with an opaque Memory.
 // karatsuba / toom_3 :: add_signed_mul_same_len are seen through their RESOURCE contracts (//@@ SIG), PROVED in
-// int_memsize_kara / int_memsize_toom3.  Trusted: lib/mem_model.rs (capacity-tracking Memory), mirrored constants.
+// int_memsize_kara / int_memsize_toom3.  Trusted: lib/mem_model.rs (capacity-tracking Memory).  The thresholds are the REAL
+// constants (rule E4 //@@ CONST); lib/mem_need.rs mirrors them as literals, so changing one makes the obligations fail.
 #![allow(unused_imports, unused_variables, dead_code, non_snake_case, unused_mut, unused_parens, unused_braces)]
 use vstd::prelude::*;
 verus! {
@@ -24,9 +25,10 @@ use super::*;
 pub mod mul {
 use super::*;
 use core::mem;
-/// integer/src/mul/mod.rs:17,22 (mirrored)
-pub const THRESHOLD_SIMPLE: usize = 24;
-pub const THRESHOLD_KARATSUBA: usize = 192;
+// the REAL threshold constants (rule E4): lib/mem_need.rs need() mirrors 24 / 192 as literals, so a changed constant
+// makes the dispatch obligations fail
+//@@ CONST integer/memsize/c_mul_thr_simple.rs
+//@@ CONST integer/memsize/c_mul_thr_kara.rs
 //@@ FN integer/memsize/multiply.rs drop_asserts=0,1
 //@@ FN integer/memsize/disp_add_signed_mul.rs
 //@@ FN integer/memsize/disp_same_len.rs
@@ -39,9 +41,8 @@ pub mod simple {
 use super::super::*;
 use super::super::Sign::*;
 use super::helpers;
-/// integer/src/mul/simple.rs:14,17 (mirrored)
-pub const CHUNK_LEN: usize = 1024;
-pub const MAX_SMALLER_LEN: usize = CHUNK_LEN;
+//@@ CONST integer/memsize/c_simple_chunk_len.rs
+//@@ CONST integer/memsize/c_simple_max_smaller.rs
 //@@ SIG integer/mul_simple/add_mul_chunk.rs
 //@@ SIG integer/mul_simple/sub_mul_chunk.rs
 //@@ FN integer/memsize/simple_chunk.rs drop_asserts=1
@@ -51,16 +52,14 @@ pub const MAX_SMALLER_LEN: usize = CHUNK_LEN;
 pub mod karatsuba {
 use super::super::*;
 use super::helpers;
-/// integer/src/mul/karatsuba.rs:19 (mirrored)
-pub const MIN_LEN: usize = 3;
+//@@ CONST integer/memsize/c_kara_min_len.rs
 //@@ SIG integer/memsize/kara_same_len.rs
 //@@ FN integer/memsize/kara_add_signed_mul.rs
 }
 pub mod toom_3 {
 use super::super::*;
 use super::helpers;
-/// integer/src/mul/toom_3.rs:30 (mirrored)
-pub const MIN_LEN: usize = 16;
+//@@ CONST integer/memsize/c_toom_min_len.rs
 //@@ SIG integer/memsize/toom3_same_len.rs
 //@@ FN integer/memsize/toom3_add_signed_mul.rs
 }
